@@ -427,7 +427,16 @@ func runSplit(c Case, tr *Tracer) {
 			// the builder has just served the same text under another reference (a re-send gets a reference of its own)
 			_, _, _ = bb.Content(text, byte(ref+1)).Build(context.Background())
 		}
-		parts, actual, err := bb.Content(text, byte(ref)).Build(context.Background())
+		var parts [][]byte
+		var actual datacoding.ProtocolDataCoding
+		var err error
+		if caseInt(c, "t")%4 < 2 {
+			parts, actual, err = bb.Content(text, byte(ref)).Build(context.Background())
+		} else {
+			// the setters are also used as statements on a builder kept in a variable
+			bb.Content(text, byte(ref))
+			parts, actual, err = bb.Build(context.Background())
+		}
 		if err != nil || actual == nil {
 			return
 		}
@@ -498,6 +507,11 @@ func runSplitCase(c Case, tr *Tracer) {
 	var err error
 	can := false
 	ctx := context.Background()
+	if caseInt(c, "t")%2 == 0 {
+		// somebody has looked at the number before (a log line, a metric label, a sort): its name, wire value and preference
+		pdc := toPDC(map[string]string{"cmpp": "CMPP", "smpp": "SMPP"}[proto], req)
+		_, _, _, _ = pdc.String(), pdc.ToUint8(), pdc.Priority(), datacoding.IsValidProtoDataCoding(pdc)
+	}
 	panicked := guard(func() {
 		if proto == "cmpp" {
 			var a datacoding.CMPPDataCoding
